@@ -91,6 +91,11 @@ def sort_inputs(draw):
         data = [v.hex() for v in vals] if kind == "f8" else vals
         return {"kind": kind, "container": container, "data": data}
     pat = draw(st.sampled_from(PATTERNS))
+    if pat == "random" and draw(st.integers(0, 3)) == 0:
+        # long random inputs (recursion depth ~ log n there): sizes beyond a few typical cut-over points
+        return {"kind": kind, "container": container,
+                "gen": {"seed": draw(st.integers(0, 2 ** 32)), "n": draw(st.sampled_from([513, 1001, 1025, 2049, 5000])),
+                        "pattern": pat, "kind": kind}}
     nmax = 400 if pat in ("random", "few-distinct", "organ-pipe") else draw(st.sampled_from([60, 150, 400]))
     return {"kind": kind, "container": container,
             "gen": {"seed": draw(st.integers(0, 2 ** 32)), "n": draw(st.integers(31, nmax)), "pattern": pat,
@@ -142,7 +147,7 @@ def classify_sort(case):
     vals = _values(case)
     n = len(vals)
     labs = ["kind:" + case["kind"], "container:" + case["container"],
-            "n:%s" % ("0" if n == 0 else "1" if n == 1 else "2" if n == 2 else "3-30" if n <= 30 else "31-150" if n <= 150 else "151-400")]
+            "n:%s" % ("0" if n == 0 else "1" if n == 1 else "2" if n == 2 else "3-30" if n <= 30 else "31-150" if n <= 150 else "151-400" if n <= 400 else ">400")]
     if "gen" in case:
         labs.append("pattern:" + case["gen"]["pattern"])
     ties = len(set(vals)) < n
@@ -488,8 +493,11 @@ def classify_prange(case):
 
 
 # --------------------------------------------------------------------------- pmap
+_PMAP_OFFSET = 0          # module state the task reads (changed between two pmap calls of one case)
+
+
 def _g(value):
-    return [value * 3 + 1, "r%d" % value]
+    return [value * 3 + 1 + _PMAP_OFFSET, "r%d" % value]
 
 
 def pmap_task(item):
@@ -528,7 +536,8 @@ def pmap_cases(draw):
         opts["simple"] = True
     return {"values": values, "lat": lat, "nproc": nproc, "chunksize": draw(st.integers(1, n + 1)),
             "container": draw(st.sampled_from(["list", "tuple", "generator"])), "opts": opts,
-            "defaults": draw(st.integers(0, 5)) == 0}
+            "defaults": draw(st.integers(0, 5)) == 0,
+            "again": draw(st.sampled_from([None, None, 7, -3]))}
 
 
 def check_pmap(case, ctx):
@@ -549,6 +558,21 @@ def check_pmap(case, ctx):
     require(isinstance(got, list), "pmap must return a list, got %r", type(got))
     require(got == expected, "pmap(nproc=%d, chunksize=%d) returned %r, list(map(fn, items)) is %r",
             case["nproc"], case["chunksize"], got[:6], expected[:6])
+    if case.get("again") and items:
+        # a second map in the same process after the task's environment changed (a module global it reads):
+        # list(map(fn, items)) is evaluated with the state at the time of the call
+        global _PMAP_OFFSET
+        old = _PMAP_OFFSET
+        try:
+            _PMAP_OFFSET = case["again"]
+            expected2 = [_g(v) for v in case["values"]]
+            arg2 = list(items)
+            got2 = must(pb.pmap, pmap_task, arg2, chunksize=case["chunksize"], nproc=case["nproc"], file=out,
+                        total=len(items))
+            require(got2 == expected2, "second pmap call (nproc=%d) after the task's module state changed returned %r, "
+                    "list(map(fn, items)) is now %r", case["nproc"], got2[:6], expected2[:6])
+        finally:
+            _PMAP_OFFSET = old
 
 
 def classify_pmap(case):
